@@ -243,6 +243,8 @@ def run(ctx):
         if not ctx.mine(i):
             continue
         prog = gen_c18_program(base + i)
+        if i % 5 == 1 and not prog.get('returns_error_object'):
+            fr.returns_error_object(prog, random.Random(base + i), rate=1.0)       # every fifth operation returns (does not raise) an error object
         if i % 3 == 2 and i % 2 == 0 and not any(st['op'] == 'record_data' for st in prog['body']):
             # (S3 programs: every second one records a datum under the key the S3 layout reserves)
             prog['body'].insert(0, {'op': 'record_data', 'key': '_metadata', 'value': {'lit': {'user': 'blob'}}})
